@@ -31,8 +31,20 @@ SETUP = [
 ]
 
 
-def alphabet(w):
-    """calls worker w may issue concurrently (names/steps are per worker where the contract leaves overwrites open)"""
+SQLITE_KINDS = ("rdb_conns", "cached_rdb_threads", "sqlite")
+
+
+def alphabet(w, kind=None):
+    """calls worker w may issue concurrently (names/steps are per worker where the contract leaves overwrites open).
+    delete_study is left out on SQLite: ids are reused there after a delete (recorded finding K2), which breaks the
+    creation-order numbering of ids that the projection relies on"""
+    al = _alphabet(w)
+    if kind in SQLITE_KINDS:
+        al = [p for p in al if not any(op["a"] == "delete_study" for op in p)]
+    return al
+
+
+def _alphabet(w):
     name = ["x", "y", "z"][w - 1]
     return [
         [{"a": "create_trial", "s": 1, "tm": {"has": 0}}],
@@ -51,6 +63,9 @@ def alphabet(w):
         [{"a": "get_trial", "t": 1}],
         [{"a": "create_trial", "s": 1, "tm": {"has": 0}}, {"a": "set_param", "t": "own", "name": name, "v": 3, "d": DF0}],
         [{"a": "create_trial", "s": 1, "tm": {"has": 0}}, {"a": "set_state", "t": "own", "state": "COMPLETE", "values": [w]}],
+        [{"a": "delete_study", "s": 1}],
+        [{"a": "get_study_ua", "s": 1}],
+        [{"a": "get_best_trial", "s": 1}],
     ]
 
 
@@ -227,17 +242,26 @@ def call_raw(rp, op):
 
 def _call_keep(rp, op):
     a = op["a"]
-    if a in ("get_all_trials", "get_trial"):
+    if a in ("get_all_trials", "get_trial", "get_best_trial"):
         from optuna.trial import TrialState
 
         try:
             if a == "get_trial":
                 return {"k": "ok", "v": ("trial", rp.storage.get_trial(rp.T(op["t"])))}, None
+            if a == "get_best_trial":
+                return {"k": "ok", "v": ("trial", rp.storage.get_best_trial(rp.S(op["s"])))}, None
             states = None if op["states"] == ["ALL"] else tuple(TrialState[s] for s in op["states"])
             return {"k": "ok", "v": ("trials", rp.storage.get_all_trials(rp.S(op["s"]), deepcopy=bool(op.get("dc", 1)),
                                                                          states=states))}, None
         except Exception as e:  # noqa
-            return {"k": "err", "v": type(e).__name__}, None
+            n = type(e).__name__
+            for cls in type(e).__mro__:
+                if cls.__name__ in sd.ERRORS:
+                    n = cls.__name__
+                    break
+            else:
+                n = f"Unexpected:{n}:{str(e)[:100]}"
+            return {"k": "err", "v": n}, None
     return rp.call(op)
 
 
@@ -375,7 +399,9 @@ def random_schedule(seed, switch=0.15):
 
 def _pair_task(args):
     kind, ia, ib, mode = args
-    A, B = alphabet(1)[ia], alphabet(2)[ib]
+    if ia >= len(alphabet(1, kind)) or ib >= len(alphabet(2, kind)):
+        return []
+    A, B = alphabet(1, kind)[ia], alphabet(2, kind)[ib]
     out = []
     # dry run: how many yield points does A have when it runs first?
     t = execute(kind, [A, B], preempt_at(10 ** 9))
@@ -396,7 +422,7 @@ def _random_task(args):
         nw = rng.choice([2, 2, 3])
         progs = []
         for w in range(1, nw + 1):
-            al = alphabet(w)
+            al = alphabet(w, kind)
             p = []
             for entry in rng.sample(al, rng.choice([1, 2])):    # without replacement: no repeated set_param (D10)
                 p += entry
@@ -423,7 +449,7 @@ def _procs_task(args):
             progs = []
             for w in range(1, nw + 1):
                 p = []
-                for entry in rng.sample(alphabet(w), rng.choice([2, 3])):
+                for entry in rng.sample(alphabet(w, kind), rng.choice([2, 3])):
                     p += entry
                 progs.append(p)
             t = real_procs_execute(kind, progs, workdir)
@@ -493,7 +519,7 @@ def run(ctx):
     for kind in KINDS:
         for ia in range(n_al):
             for ib in range(n_al):
-                if ctx.quick and (ia * 7 + ib * 3 + ctx.seed) % (8 if kind == "cached_rdb_threads" else 4) != 0:
+                if ctx.quick and (ia * 7 + ib * 3 + ctx.seed) % (12 if kind == "cached_rdb_threads" else 6) != 0:
                     continue
                 tasks.append((kind, ia, ib, "sample" if ctx.quick else "all"))
     traces = []
@@ -536,7 +562,7 @@ def run(ctx):
 def replay(ctx, data):
     r = data["replay"]
     if r["family"] == "pair":
-        A, B = alphabet(1)[r["a"]], alphabet(2)[r["b"]]
+        A, B = alphabet(1, r["kind"])[r["a"]], alphabet(2, r["kind"])[r["b"]]
         t = execute(r["kind"], [A, B], preempt_at(r["i"]))
     elif r["family"] == "random":
         t = _random_task((r["kind"], r["seed"], r["index"] + 1))[r["index"]]
